@@ -1170,6 +1170,8 @@ fn recovery_on(which: &str, render: &mut dyn FnMut(&str) -> Result<String, Error
 /// * `new_state().render_block("b<B>")`.
 fn run_case(c: &Case, variant: usize) -> Outcome {
     let cfg = cfg_of(&c.fam);
+    // a panic of the engine during an armed render must not leave the fuse armed for the next case
+    fuse_arm(0);
     NAME_SHAPE.store(cfg.names, std::sync::atomic::Ordering::SeqCst);
     let pr = Pr { exts: c.tmpls.iter().map(|t| t.ext.as_str()).collect(), cfg };
     let mut sources: Vec<(String, String, Option<char>)> = c
